@@ -11,6 +11,8 @@ package yubiagent
 
 import (
 	"bytes"
+	"crypto/ed25519"
+	crand "crypto/rand"
 	"encoding/binary"
 	"encoding/hex"
 	"encoding/json"
@@ -87,6 +89,8 @@ type zvwWLabel struct {
 	Nrel  int      `json:"nrel"` // pending waits released from a second connection
 	Pan   bool     `json:"pan"`
 	Big   bool     `json:"big"`
+	Conc  int      `json:"conc"`  // connections served by the same server at the same time (1 = this one alone)
+	Kinds []string `json:"kinds"` // conc > 1 (lock step): kind of the response to the i-th frame
 }
 
 type zvwWRec struct {
@@ -252,6 +256,17 @@ func zvwNewWEnv(base string, rnd *mrand.Rand, remote bool, tool string) *zvwWEnv
 		}
 		close(acc)
 	}()
+	if remote && tool == "" {
+		// the exported constructor: shimagent.New over the socket, wrapped into the yubiagent server
+		ya, err := NewServer(sock, true)
+		if err != nil {
+			panic(fmt.Sprintf("verif: NewServer failed on a healthy agent: %v", err))
+		}
+		<-acc
+		e.srv = ya.(*server)
+		e.shim = e.srv.ShimAgent
+		return e
+	}
 	shim, err := shimagent.New(shimagent.Option{Address: sock})
 	if err != nil {
 		panic(fmt.Sprintf("verif: shimagent.New failed on a healthy agent: %v", err))
@@ -871,6 +886,7 @@ loop:
 	}
 	res.lab.Pan = res.pan != nil
 	res.lab.Big = measure && res.alloc >= 1<<20
+	res.lab.Conc, res.lab.Kinds = 1, []string{}
 	return res
 }
 
@@ -1321,3 +1337,269 @@ func zvwGroupClass(c int) int {
 }
 
 var _ = errors.New
+
+// ---------------------------------------------------------------------------------------------
+// several connections to ONE server (AgentWire part 3)
+
+type zvwCPlan struct {
+	Sessions int `json:"sessions"`
+	Rounds   int `json:"rounds"`
+}
+
+type zvwCConn struct {
+	wc    *zvwWConn // the server's side (records what the server writes)
+	cl    net.Conn  // the harness's side
+	done  chan struct{}
+	err   error
+	pan   interface{}
+	items []zvwWCItem
+	kinds []string
+	hung  bool
+}
+
+// do sends one frame and reads exactly one response (lock step); false when nothing came back.
+func (cc *zvwCConn) do(it zvwWCItem) bool {
+	cc.items = append(cc.items, it)
+	cc.cl.SetDeadline(time.Now().Add(20 * time.Second))
+	if _, err := cc.cl.Write(it.b); err != nil {
+		cc.kinds = append(cc.kinds, "none")
+		return false
+	}
+	rp, err := verifh.ReadFrame(cc.cl)
+	if err != nil {
+		cc.kinds = append(cc.kinds, "none")
+		if ne, ok := err.(net.Error); ok && ne.Timeout() {
+			cc.hung = true
+		}
+		return false
+	}
+	cc.kinds = append(cc.kinds, zvwRespKind(rp))
+	return true
+}
+
+// zvwExpiredCert: a fresh key and a self-signed certificate for it whose validity ended long ago.
+func zvwExpiredCert(r *mrand.Rand, serial uint64, stale bool) (agent.AddedKey, *ssh.Certificate) {
+	seed := make([]byte, ed25519.SeedSize)
+	r.Read(seed)
+	priv := ed25519.NewKeyFromSeed(seed)
+	signer, err := ssh.NewSignerFromKey(priv)
+	if err != nil {
+		panic(err)
+	}
+	crt := &ssh.Certificate{Key: signer.PublicKey(), Serial: serial, CertType: ssh.UserCert, KeyId: fmt.Sprintf("conc-%d", serial),
+		ValidPrincipals: []string{"user"}, ValidAfter: 1000, ValidBefore: 2000}
+	if !stale {
+		crt.ValidAfter, crt.ValidBefore = 0, uint64(time.Now().Unix()+86400)
+	}
+	if err := crt.SignCert(crand.Reader, signer); err != nil {
+		panic(err)
+	}
+	return agent.AddedKey{PrivateKey: &priv, Comment: "conc"}, crt
+}
+
+func zvwFrameItem(code int, l, body, aux, v string, b []byte) zvwWCItem {
+	ci := zvwWCItem{It: zvwWIt{K: "frame", Code: code, Len: l, Body: body, Aux: aux}, Var: v, b: zvwWFrame(b)}
+	ci.Hex = hex.EncodeToString(ci.b)
+	return ci
+}
+
+// TestVerifWireConc: K connections (2..8) to one real server (NewServer over a real shim over a real keyring), each
+// sending its own well-formed frames in lock step, all of them at the same time, while the shim holds stale hardware
+// certificates that the next listing has to purge.  One record per connection (items, kinds, responses, end).
+func TestVerifWireConc(t *testing.T) {
+	planPath, outPath := os.Getenv("VERIF_PLAN"), os.Getenv("VERIF_OUT")
+	if planPath == "" || outPath == "" {
+		t.Skip("VERIF_PLAN / VERIF_OUT not set")
+	}
+	stdlog.SetOutput(io.Discard)
+	var plan zvwCPlan
+	raw, err := os.ReadFile(planPath)
+	if err != nil {
+		t.Fatal(err)
+	}
+	if err := json.Unmarshal(raw, &plan); err != nil {
+		t.Fatal(err)
+	}
+	tr, err := verifh.OpenTrace(outPath)
+	if err != nil {
+		t.Fatal(err)
+	}
+	base, err := os.MkdirTemp(filepath.Dir(outPath), "s")
+	if err != nil {
+		t.Fatal(err)
+	}
+	defer os.RemoveAll(base)
+	stats := map[string]int{}
+	var samples []interface{}
+	var serial uint64
+	for si := 0; si < plan.Sessions; si++ {
+		r := verifh.NewRand("wire-conc", int64(si))
+		env := zvwNewWEnv(base, verifh.NewRand("wire-conc-env", int64(si)), true, "")
+		k := 2 + r.Intn(7)
+		conns := make([]*zvwCConn, k)
+		for i := range conns {
+			sside, hside := net.Pipe()
+			cc := &zvwCConn{wc: &zvwWConn{pipe: sside, sig: make(chan struct{}, 1), markOff: -1}, cl: hside, done: make(chan struct{})}
+			conns[i] = cc
+			go func() {
+				defer close(cc.done)
+				defer sside.Close()
+				defer func() {
+					if p := recover(); p != nil {
+						cc.pan = p
+					}
+				}()
+				cc.err = ServeAgent(env.srv, cc.wc)
+			}()
+		}
+		g := &zvwWGen{env: env, r: r, rot: map[string]int{}, small: true}
+		ok := true
+		for round := 0; round < plan.Rounds && ok; round++ {
+			// prepared state, by connection 0 alone: forget everything, then fresh keys with hardware certificates,
+			// most of them expired long ago (nothing refuses them), some valid
+			admin := conns[0]
+			ok = admin.do(zvwFrameItem(19, "1", "none", "none", "removeall", []byte{19}))
+			for m := 1 + r.Intn(4); m > 0 && ok; m-- {
+				serial++
+				ak, crt := zvwExpiredCert(r, serial, r.Intn(5) != 0)
+				add := zvwWCaptureReq(func(a agent.ExtendedAgent) { a.Add(ak) })
+				ok = admin.do(zvwFrameItem(17, "n", "valid", "none", "add-ed25519", add))
+				if !ok {
+					break
+				}
+				if r.Intn(2) == 0 {
+					ok = admin.do(zvwFrameItem(31, "n", "valid", "struct", "struct-stalecert",
+						ssh.Marshal(agentAddHardCertReq{KeyBlob: crt.Marshal(), Comment: "hw"})))
+				} else {
+					ok = admin.do(zvwFrameItem(31, "n", "valid", "legacy", "legacy-stalecert", append([]byte{31}, crt.Marshal()...)))
+				}
+			}
+			if !ok {
+				break
+			}
+			// every connection prepares its own burst; all start at the same moment
+			bursts := make([][]zvwWCItem, k)
+			for i := range bursts {
+				bursts[i] = append(bursts[i], zvwFrameItem(11, "1", "none", "none", "list", []byte{11}))
+				for n := r.Intn(3); n > 0; n-- {
+					switch r.Intn(7) {
+					case 0, 1:
+						bursts[i] = append(bursts[i], zvwFrameItem(11, "1", "none", "none", "list", []byte{11}))
+					case 2:
+						bursts[i] = append(bursts[i], zvwFrameItem(1, "1", "none", "none", "list-v1", []byte{1}))
+					case 3:
+						b, v, _ := g.validStd(13)
+						bursts[i] = append(bursts[i], zvwFrameItem(13, "n", "valid", "none", v, b))
+					case 4:
+						bursts[i] = append(bursts[i], zvwFrameItem(35, "n", "valid", "imm", "wait-imm", []byte{35, byte(40 + r.Intn(216))}))
+					case 5:
+						bursts[i] = append(bursts[i], zvwFrameItem(32, "1", "none", "none", "listslots", []byte{32}))
+					default:
+						c := 64 + r.Intn(192)
+						bursts[i] = append(bursts[i], zvwFrameItem(c, "n", "unknown", "none", "forward", append([]byte{byte(c)}, zvwRndBytes(r, 1+r.Intn(30))...)))
+					}
+				}
+			}
+			start := make(chan struct{})
+			var wg sync.WaitGroup
+			res := make([]bool, k)
+			for i := range conns {
+				wg.Add(1)
+				go func(i int) {
+					defer wg.Done()
+					<-start
+					res[i] = true
+					for _, it := range bursts[i] {
+						if !conns[i].do(it) {
+							res[i] = false
+							return
+						}
+					}
+				}(i)
+			}
+			close(start)
+			wg.Wait()
+			for i := range res {
+				ok = ok && res[i]
+			}
+			stats["rounds"]++
+		}
+		// clean end of stream on every connection
+		for _, cc := range conns {
+			cc.cl.Close()
+		}
+		var recs []interface{}
+		for i, cc := range conns {
+			select {
+			case <-cc.done:
+			case <-time.After(20 * time.Second):
+				cc.hung = true
+			}
+			eof := zvwWCItem{It: zvwWTerms[0], Var: "eof"}
+			cc.items = append(cc.items, eof)
+			lab := zvwWLabel{Conc: k, Kinds: cc.kinds, Pan: cc.pan != nil}
+			for _, it := range cc.items {
+				lab.Items = append(lab.Items, it.It)
+			}
+			// the response frames the server wrote on this connection (own framer over its writes)
+			cc.wc.mu.Lock()
+			var buf []byte
+			for _, ev := range cc.wc.log {
+				if ev.kind == 'w' {
+					buf = append(buf, ev.data...)
+				}
+			}
+			cc.wc.mu.Unlock()
+			for len(buf) > 0 {
+				lab.Nrep++
+				if len(buf) < 4 {
+					break
+				}
+				n := int(binary.BigEndian.Uint32(buf))
+				if 4+n > len(buf) {
+					break
+				}
+				buf = buf[4+n:]
+			}
+			final := "ok"
+			switch {
+			case cc.hung:
+				final = "hung"
+			case cc.pan != nil:
+				final = "crashed"
+			case cc.err != nil:
+				final = "err"
+			}
+			if lab.Kinds == nil {
+				lab.Kinds = []string{}
+			}
+			tid := fmt.Sprintf("k%d_%d", si, i)
+			vars := []string{}
+			for _, it := range cc.items {
+				vars = append(vars, it.Var)
+			}
+			pre := zvwWSt{Pos: 1, St: "running", Out: []int{}}
+			recs = append(recs, zvwWRec{Ev: "reset", Fam: "w", Tid: tid, Post: pre,
+				Info: map[string]interface{}{"conc": map[string]interface{}{"session": si, "conn": i, "conns": k, "sessions": plan.Sessions, "rounds": plan.Rounds, "seed": verifh.Seed()}}})
+			recs = append(recs, zvwWRec{Ev: "step", Fam: "w", Tid: tid, Pre: &pre, E: &lab, Post: zvwWSt{Pos: len(cc.items) + 1, St: final, Out: []int{}},
+				Info: map[string]interface{}{"vars": vars, "ret": fmt.Sprint(cc.err), "replies": cc.kinds, "attributed": []int{}}})
+			stats["connections"]++
+			stats["frames"] += len(cc.items) - 1
+			if len(samples) < 3 && i == 1 && si%7 == 0 {
+				n := len(cc.kinds)
+				if n > 8 {
+					n = 8
+				}
+				samples = append(samples, map[string]interface{}{"tid": tid, "connections": k, "frames": len(cc.items) - 1, "first_response_kinds": cc.kinds[:n], "returned": fmt.Sprint(cc.err)})
+			}
+		}
+		tr.EmitAll(recs)
+		stats["sessions"]++
+		env.close()
+	}
+	if err := tr.Close(); err != nil {
+		t.Fatal(err)
+	}
+	b, _ := json.Marshal(map[string]interface{}{"stats": stats, "samples": samples})
+	fmt.Printf("VERIF-SUMMARY %s\n", b)
+}
